@@ -76,6 +76,9 @@ func TestC08(t *testing.T) {
 	p = c.rec.NewPart("bytes_exhaustive", "every string of length 0..3 over the SQL byte-class alphabet", false, true, "")
 	c.EnumSeq(p, gen.AlphaSQL, "", 0, 3, judge)
 
+	bnd := sqlBoundaryInputs()
+	p = c.rec.NewPart("boundary_inputs", "slot-, clip- and length-boundary inputs (see C06)", false, true, "")
+	c.ParRange(p, int64(len(bnd)), func(w *Worker, i int64) { judge(w, bnd[i]) })
 	att := attackInputs()
 	p = c.rec.NewPart("attack_grammar", "members of the calibrated attack grammar (true branch, fingerprints of length 1..5)", false, true, "")
 	c.ParRange(p, int64(len(att)), func(w *Worker, i int64) { judge(w, att[i]) })
